@@ -6,6 +6,7 @@ import random
 
 from haiway import ctx
 
+from harness.decoys import decoyed
 from harness.legs import cfg_text, gen_traces, leg_m, leg_mutant, leg_r, leg_t_gen
 from harness.vloop import Falsy, VClock, VLoop
 
@@ -70,7 +71,7 @@ class ThrottleDriver:
             raise drv.errs[c]
 
         p = float(period) if init["pform"] == "float" else timedelta(seconds=period * self.unit)
-        self.wrapped = throttle(limit=limit, period=p)(fn)
+        self.wrapped = throttle(limit=limit, period=p)(decoyed(fn))
 
     async def _caller(self, c):
         try:
